@@ -20,6 +20,7 @@ import (
 	"io"
 	"net/http"
 	"net/http/httptest"
+	"net/netip"
 	"net/url"
 	"os"
 	"regexp"
@@ -103,7 +104,46 @@ func formTarget(body string) (target string, blocked, ok bool) {
 	return a, false, true
 }
 
+// loopTruth: the ground truth of "u is an http(s) loopback address", decided WITHOUT the library:
+// scheme http / https and the host exactly `localhost`, or an IP literal (no zone) in 127.0.0.0/8
+// (also written as an IPv4-mapped IPv6 address) or ::1. Host names are compared as spelled: LOCALHOST,
+// `localhost.`, names below or around localhost (app.localhost, evil-localhost, localhost.evil.com)
+// and number forms that are not IP literals (127.1, 0x7f.0.0.1, 2130706433) are NOT loopback.
+func loopTruth(raw string) (path, rawQuery string, ok bool) {
+	pu, err := url.Parse(raw)
+	if err != nil || (pu.Scheme != "http" && pu.Scheme != "https") {
+		return "", "", false
+	}
+	h := pu.Hostname()
+	if h != "localhost" {
+		a, err := netip.ParseAddr(h)
+		if err != nil || a.Zone() != "" {
+			return "", "", false
+		}
+		a = a.Unmap()
+		if a.Is4() {
+			if a.As4()[0] != 127 {
+				return "", "", false
+			}
+		} else if a != netip.IPv6Loopback() {
+			return "", "", false
+		}
+	}
+	return pu.Path, pu.RawQuery, true
+}
+
+// loopDisagree counts the URIs on which the library's classifier and the ground truth differ
+var loopDisagree int
+
 func uinfo(u string) string {
+	truthT := emit.None
+	tp, tq, tok := loopTruth(u)
+	if tok {
+		truthT = emit.Some(emit.Pair(emit.Str(tp), emit.Str(tq)))
+	}
+	if pu, ok := op.HTTPLoopbackOrLocalhost(u); ok != tok || (ok && (pu.Path != tp || pu.RawQuery != tq)) {
+		loopDisagree++
+	}
 	loopT := emit.None
 	if pu, ok := op.HTTPLoopbackOrLocalhost(u); ok {
 		loopT = emit.Some(emit.Pair(emit.Str(pu.Path), emit.Str(pu.RawQuery)))
@@ -119,7 +159,7 @@ func uinfo(u string) string {
 			formT = emit.Some(emit.Str(t))
 		}
 	}
-	return emit.Ctor("Build_uinfo", loopT, canonT, formT)
+	return emit.Ctor("Build_uinfo", loopT, canonT, formT, truthT)
 }
 
 func tables(clients []*refstore.Client, uris []string) string {
@@ -272,11 +312,51 @@ func genClient(r drv.Rand, id string) *refstore.Client {
 	return withKey(c)
 }
 
-func swapHost(u, from, to string) (string, bool) {
-	if i := strings.Index(u, "://"+from); i >= 0 {
-		return u[:i+3] + to + u[i+3+len(from):], true
+// hosts that are loopback (first line), and hosts that merely look like it: names with localhost /
+// 127.0.0.1 as prefix, suffix or label, other cases and spellings, numbers that are not IP literals,
+// addresses next to the loopback ranges
+var loopHosts = []string{"localhost", "127.0.0.1", "[::1]", "127.0.0.2", "127.255.255.254", "[::ffff:127.0.0.1]", "[0:0:0:0:0:0:0:1]", "[::ffff:7f00:1]",
+	"evil-localhost", "attackerlocalhost", "notlocalhost", "login.notlocalhost", "app.localhost", "localhost.evil.com", "localhost.evil.example", "localhost-evil",
+	"localhostx", "1localhost", "localhost.", "localhost..", "LOCALHOST", "Localhost", "LocalHost.", "local-host", "locahost", "localhost.localdomain",
+	"127.0.0.1.evil.com", "127.0.0.1.", "evil127.0.0.1", "127.0.0.1.nip.io", "128.0.0.1", "126.255.255.255", "1.0.0.127", "10.0.0.1", "0.0.0.0", "127.1", "127.0.1", "0x7f.1",
+	"0x7f.0.0.1", "0177.0.0.1", "2130706433", "127.0.0.01", "[::2]", "[::]", "[::1%25lo]", "[1::1]", "[::ffff:128.0.0.1]", "[fe80::1]", "xn--localhost", "localhost%00.evil.com", "127.0.0.1%2eevil.com"}
+
+// loopNear: base with its host replaced by one of loopHosts; port kept, dropped or replaced; sometimes
+// with userinfo (also userinfo that itself looks like a loopback host). Path, query and fragment stay,
+// so a loopback classification of the new host is all that is needed for a native client to accept it.
+func loopNear(r drv.Rand, base string) (string, bool) {
+	i := strings.Index(base, "://")
+	if i < 0 {
+		return "", false
 	}
-	return u, false
+	rest := base[i+3:]
+	j := strings.IndexAny(rest, "/?#")
+	if j < 0 {
+		j = len(rest)
+	}
+	auth, tail := rest[:j], rest[j:]
+	if k := strings.LastIndex(auth, "@"); k >= 0 {
+		auth = auth[k+1:]
+	}
+	port := ""
+	if k := strings.LastIndex(auth, ":"); k >= 0 && !strings.HasSuffix(auth, "]") {
+		port = auth[k:]
+	}
+	switch r.IntN(4) {
+	case 0:
+		port = ""
+	case 1:
+		port = drv.Pick(r, []string{":8080", ":80", ":443", ":1", ":65535"})
+	}
+	user := ""
+	if r.Chance(1, 6) {
+		user = drv.Pick(r, []string{"user@", "localhost@", "127.0.0.1@", "user:pw@", "localhost:80@"})
+	}
+	scheme := base[:i]
+	if r.Chance(1, 5) && (scheme == "http" || scheme == "https") {
+		scheme = map[string]string{"http": "https", "https": "http"}[scheme]
+	}
+	return scheme + "://" + user + drv.Pick(r, loopHosts) + port + tail, true
 }
 
 func longPad(r drv.Rand) string {
@@ -389,13 +469,10 @@ func mutate0(r drv.Rand, base string) (string, string) {
 		}
 		return base + ":8080", "port"
 	case 5, 6:
-		hosts := []string{"localhost", "127.0.0.1", "[::1]", "127.0.0.2", "localhost.evil.example", "127.1", "0x7f.0.0.1", "[::ffff:127.0.0.1]", "LOCALHOST", "10.0.0.1", "[::2]"}
-		for _, h := range []string{"localhost", "127.0.0.1", "[::1]", "app.example.com"} {
-			if s, ok := swapHost(base, h, drv.Pick(r, hosts)); ok {
-				return s, "loopswap"
-			}
+		if u, ok := loopNear(r, base); ok {
+			return u, "loopswap"
 		}
-		return "http://" + drv.Pick(r, hosts) + "/cb", "loopswap"
+		return "http://" + drv.Pick(r, loopHosts) + "/cb", "loopswap"
 	case 7:
 		switch {
 		case strings.HasPrefix(base, "https://"):
@@ -469,6 +546,15 @@ func patternInstance(r drv.Rand, reg string) (string, bool) {
 
 func genURI(r drv.Rand, c *refstore.Client) (string, string) {
 	base := drv.Pick(r, c.Redirects)
+	if r.Chance(1, 5) { // a registered loopback URI under a host that is, or only looks like, loopback
+		for _, reg := range c.Redirects {
+			if _, _, ok := loopTruth(reg); ok {
+				if u, ok := loopNear(r, reg); ok {
+					return u, "loopnear"
+				}
+			}
+		}
+	}
 	if r.Chance(1, 4) {
 		for _, reg := range c.Redirects {
 			if u, ok := patternInstance(r, reg); ok {
@@ -1526,8 +1612,8 @@ func main() {
 			genSequence(r, w)
 		}
 	}
-	err := w.Close(emit.Meta{Property: "C03", Tier: cfg.Tier, Seed: cfg.Seed,
-		Rule: "validate: random registration (app type x dev x response types x 1-3 registered URIs x optional globs incl. malformed) x requested URI = registered one, mutated (suffix/prefix/userinfo/host case/port/loopback swaps/scheme/custom/glob metacharacters/foreign/empty/unparseable) or glob instance, x response_type; history: 1-2 flows Authorize->Login->Callback over HTTP on random routers with 0-1 error-provoking parameter (before or after URI validation), really signed request objects (client key registered in the storage; redirect_uri / response_type / response_mode / prompt / scope inside equal to or different from the plain parameters; wrong key, kid, iss, aud, client_id), storage faults returning plain / typed / redirect-disabled errors, dynamic issuer with several hosts, skipped login, replayed/unknown callbacks, all response modes; sequence: 2-4 clients on one provider instance, 2-5 flows of neighbouring different clients mostly on the success path in one response mode per session (or mixed), all authorizations, then logins, then the callbacks in random order with replays, one or more answers written under a write fault (ResponseWriter.Write failing after 0-100 bytes, or behind the first form tag), each answer judged by the Location / FIRST form action the user agent would follow; plus directed F14, happy-flow and write-fault cases. non-trivial = model path class != 0 (validate: non-empty URI; history: at least one answer that is not an error page); distinct = distinct Coq input terms",
+	err := w.Close(emit.Meta{Property: "C03", Tier: cfg.Tier, Seed: cfg.Seed, Extra: map[string]any{"loopback_classifier_disagreements": loopDisagree},
+		Rule: "loopback ground truth: every URI of a case is classified by the harness itself (http/https and host exactly localhost or an IP literal in 127.0.0.0/8 or ::1) next to the library's HTTPLoopbackOrLocalhost; the predicate uses the former, the model the latter; requested URIs include registered loopback URIs under ~50 near-miss hosts (prefix/suffix/label/case/trailing dot/number forms/neighbouring addresses) with and without port and userinfo. validate: random registration (app type x dev x response types x 1-3 registered URIs x optional globs incl. malformed) x requested URI = registered one, mutated (suffix/prefix/userinfo/host case/port/loopback swaps/scheme/custom/glob metacharacters/foreign/empty/unparseable) or glob instance, x response_type; history: 1-2 flows Authorize->Login->Callback over HTTP on random routers with 0-1 error-provoking parameter (before or after URI validation), really signed request objects (client key registered in the storage; redirect_uri / response_type / response_mode / prompt / scope inside equal to or different from the plain parameters; wrong key, kid, iss, aud, client_id), storage faults returning plain / typed / redirect-disabled errors, dynamic issuer with several hosts, skipped login, replayed/unknown callbacks, all response modes; sequence: 2-4 clients on one provider instance, 2-5 flows of neighbouring different clients mostly on the success path in one response mode per session (or mixed), all authorizations, then logins, then the callbacks in random order with replays, one or more answers written under a write fault (ResponseWriter.Write failing after 0-100 bytes, or behind the first form tag), each answer judged by the Location / FIRST form action the user agent would follow; plus directed F14, happy-flow and write-fault cases. non-trivial = model path class != 0 (validate: non-empty URI; history: at least one answer that is not an error page); distinct = distinct Coq input terms",
 	})
 	if err != nil {
 		fmt.Fprintln(os.Stderr, err)
